@@ -81,9 +81,11 @@ func GenNICase(r *rand.Rand) *NICase {
 			c.GVars = append(c.GVars, e)
 		}
 	}
-	for _, e := range perTaskGlobalEnv() {
-		if r.Intn(2) == 0 {
-			c.GEnv = append(c.GEnv, e)
+	if r.Intn(2) == 0 { // without them the env of two tasks' sh: env entries differs in nothing but the dir
+		for _, e := range perTaskGlobalEnv() {
+			if r.Intn(2) == 0 {
+				c.GEnv = append(c.GEnv, e)
+			}
 		}
 	}
 	if r.Intn(2) == 0 {
